@@ -145,7 +145,9 @@ PLAN = {
         claim="write_dc_parameters extracted WHOLE (Verus, every u64 receive time and master time): the offset sent to 0x0920 of the device's own station address is (master time - latched receive time) in 64-bit two's complement, the propagation delay computed for it goes to 0x0928, no overflow; configure_subdevice_offsets leaf (Kani, bounded: 1 parent + 1 child, all port times symbolic): the accumulated delay never decreases and is always assigned. 4-port functions of Ports proved against closed-form specs for all 16 activity patterns x all u32 times x all downstream assignments "
               "(Kani, unwinding assertions on: complete). Tree level (assign_parent_relationships / find_subdevice_parent / configure_subdevice_offsets): "
               "bounded stand-ins for N<=2 devices with symbolic link reports and N=3 chain with symbolic link delays (thorough) - labelled bounded, not counted as proved",
-        note="the reference-clock clause (first DC device; configure_dc) and latch_dc_times (iterator adapters) are not decided; N>3 device trees not explored; "
+        note="configure_dc is extracted whole as well: the reference clock returned is the FIRST DC-capable device in frame-processing order (None iff there is none) and "
+             "every DC-capable device is programmed against ONE master time (find/filter adapters as contract-carrying stand-ins, the closures proved to decide DC support); "
+             "latch_dc_times (iterator adapters) is assumed to change times only; N>3 device trees not explored; "
              "Verus models `as i64` of a u64 only when the cast is marked truncating (logged substitution, same meaning as Rust's)",
     ),
     "C08": dict(
